@@ -250,6 +250,21 @@ def _rs_obs(step: Dict[str, Any], rs_vram: bytearray) -> Obs:
     return step.get("r"), regs, bytes(rs_vram)
 
 
+def _rs_probe_busy(prefix: List[List[Any]]) -> Optional[List[bool]]:
+    probe = [list(o) for o in prefix] + [["r", 0x2009], ["r", 0x2005]]  # status read: left, right
+    rr = rs_run([{"ops": probe, "snap": False}])[0]
+    steps = rr.get("steps", [])
+    if len(steps) != len(probe):
+        return None  # a panic inside the prefix is reported by the main comparison
+    out = []
+    for st_ in steps[-2:]:
+        v = st_.get("r")
+        if not isinstance(v, int):
+            return None  # a status read returning nothing is a Part-A verdict at a real status-read step
+        out.append(bool(v & 0x80))
+    return out
+
+
 def judge_history(ops: List[List[Any]], rs_result: Dict[str, Any]) -> Tuple[List[Violation], List[str], bool, Dict[str, Any]]:
     """Run one history through model + Python (lock-step here) + Rust (pre-computed) -> violations, labels, NT."""
     viols: List[Violation] = []
@@ -278,6 +293,8 @@ def judge_history(ops: List[List[Any]], rs_result: Dict[str, Any]) -> Tuple[List
             exp_ret = model.read(addr)
         labels.add("op:" + where)
         case = {"kind": "history", "ops": ops[:i + 1]}
+        prev_py_busy = py.busy() if not matched else None
+        model_busy_before = [c.busy for c in model.chips]  # the model ignores direction-mismatched accesses
         # --- Python step
         try:
             if op[0] == "w":
@@ -310,10 +327,27 @@ def judge_history(ops: List[List[Any]], rs_result: Dict[str, Any]) -> Tuple[List
                 viols.append(Violation("py-vs-rs:" + "+".join(sorted(set(fields))), where, "; ".join(sym), case,
                                        f"step {i} {op}: " + "; ".join(det)))
                 stop = True
-            elif (py_obs[1], py_obs[2]) != (exp[1], exp[2]) or py_obs[0] != exp[0]:
-                # both implementations agree on something the model does not prescribe: follow them
-                model.adopt(py_obs[1], py_obs[2], py.busy())
-                labels.add("model-resynced")
+            else:
+                # The busy flags are not part of either snapshot.  Python's is a public attribute; Rust's is probed
+                # on a fresh controller that replays the prefix and then reads both chips' status.
+                py_busy = py.busy()
+                rs_busy = _rs_probe_busy(ops[:i + 1])
+                if rs_busy is None:
+                    labels.add("busy-probe-unavailable")
+                elif py_busy != rs_busy:
+                    py_same = py_busy == prev_py_busy and (py_obs[1], py_obs[2]) == (prev_py[1], prev_py[2])
+                    rs_same = rs_busy == model_busy_before and (rs_obs[1], rs_obs[2]) == (prev_rs[1], prev_rs[2])
+                    viols.append(Violation(
+                        "py-vs-rs:busy", where,
+                        f"python state {'unchanged' if py_same else 'changed'}, rust state "
+                        f"{'unchanged' if rs_same else 'changed'}; differing: busy", case,
+                        f"step {i} {op}: busy flags [left,right] py={py_busy} rs={rs_busy} (status-read probe)"))
+                    stop = True
+                elif (py_obs[1], py_obs[2]) != (exp[1], exp[2]) or py_obs[0] != exp[0] or \
+                        py_busy != [c.busy for c in model.chips]:
+                    # both implementations agree on something the model does not prescribe: follow them
+                    model.adopt(py_obs[1], py_obs[2], py_busy)
+                    labels.add("model-resynced")
         if stop:
             break
         prev_py, prev_rs = py_obs, rs_obs
@@ -613,13 +647,14 @@ def pix_configs(ctx: Ctx) -> List[Dict[str, Any]]:
         {"impl": "rs", "base": h, "starts": [0, 0]},
         {"impl": "rs", "base": h, "starts": [sa, sb]},
         {"impl": "rs", "base": ["zeros"], "starts": [s8, 0]},
+        {"impl": "py", "base": ["ones"], "starts": [sb, sa]},
     ]
     if not ctx.quick:
         h2 = ["hash", mix32(s, 0xBA5F)]
         cfgs += [
             {"impl": "py", "base": ["zeros"], "starts": [0, 0]},
             {"impl": "py", "base": ["ones"], "starts": [0, 0]},
-            {"impl": "py", "base": h2, "starts": [sa, sb]},
+            {"impl": "py", "base": h2, "starts": [sa, s8]},
             {"impl": "rs", "base": ["ones"], "starts": [0, 0]},
             {"impl": "rs", "base": ["zeros"], "starts": [0, 0]},
         ]
